@@ -59,6 +59,17 @@ def _program(draw):
                 n["defaults"][p] = {"__mut__": mut_params[p]}
         n["params"] = [p for p in n["params"] if p not in n["defaults"]] + [p for p in n["params"] if p in n["defaults"]]
         n["mutates"] = [p for p in n["params"] if p in mut_params]
+    # ... and, sometimes, on a name that an upstream node PRODUCES: its consumers may start early on (a private copy of) the default
+    # and run again when the value arrives
+    produced_used = sorted({p for n in topo for p in n["params"] if p in prod})
+    if produced_used and prob(draw, 0.3):
+        pe = draw(st.sampled_from(produced_used))
+        kind_e = draw(st.sampled_from(MUT_KINDS))
+        for n in topo:
+            if pe in n["params"]:
+                n["defaults"][pe] = {"__mut__": kind_e}
+                n["params"] = [q for q in n["params"] if q not in n["defaults"]] + [q for q in n["params"] if q in n["defaults"]]
+                n["mutates"] = list(n["mutates"]) + [pe]
     # consistency: equal defaults for a shared parameter must compare equal at construction: fresh [] == [] holds
     bindable = [p for p in pure if p not in mut_params]
     bind = {p: "obj" for p in draw(gen.subset(bindable, 0.4))}
